@@ -127,6 +127,80 @@ class Effects:
         self._ra[fi.qname] = out
         return out
 
+    def embeds(self, fi):
+        """(param, field) pairs such that the structure the function returns contains, somewhere inside, the very container held
+        in that field of that parameter (e.g. a serialiser that puts node.attributes into the dict it builds)"""
+        if not hasattr(self, "_emb"):
+            self._emb = {}
+        if fi.qname in self._emb:
+            return self._emb[fi.qname]
+        self._emb[fi.qname] = set()
+        ft = self.w.types(fi)
+        returned = {n.value.id for n in ast.walk(fi.node) if isinstance(n, ast.Return) and isinstance(n.value, ast.Name)}
+        exprs = [n.value for n in ast.walk(fi.node) if isinstance(n, ast.Return) and n.value is not None and not isinstance(n.value, ast.Name)]
+        # what is put into a returned structure (or into a local that is itself put into one)
+        changed = True
+        structs = set(returned)
+        while changed:
+            changed = False
+            for n in ast.walk(fi.node):
+                src, dst = None, None
+                if isinstance(n, ast.Assign):
+                    for t in n.targets:
+                        base = t
+                        while isinstance(base, ast.Subscript):
+                            base = base.value
+                        if isinstance(base, ast.Name) and base.id in structs:
+                            src, dst = n.value, base.id
+                elif isinstance(n, ast.Call) and isinstance(n.func, ast.Attribute) and n.func.attr in ("append", "extend", "insert", "update", "setdefault", "add"):
+                    base = n.func.value
+                    while isinstance(base, ast.Subscript):
+                        base = base.value
+                    if isinstance(base, ast.Name) and base.id in structs and n.args:
+                        src, dst = ast.Tuple(elts=list(n.args), ctx=ast.Load()), base.id
+                if src is not None:
+                    exprs.append(src)
+                    for x in ast.walk(src):
+                        if isinstance(x, ast.Name) and isinstance(x.ctx, ast.Load) and x.id not in structs and x.id not in fi.params:
+                            structs.add(x.id)
+                            changed = True
+        out = set()
+
+        def scan(e):
+            if isinstance(e, ast.Call):
+                f = e.func
+                fname = f.id if isinstance(f, ast.Name) else f.attr if isinstance(f, ast.Attribute) else ""
+                if fname in ("dict", "list", "set", "tuple", "str", "copy", "deepcopy", "sorted", "len", "repr", "int", "float", "bool"):
+                    return  # a copy / a scalar: nothing of the original is embedded
+                for tg in self.w.resolve_call(ft, e):
+                    if tg.func is not None:
+                        am = self.w.arg_map(tg, e)
+                        for (pp, fld) in (self.embeds(tg.func) if tg.func.qname != fi.qname else set()) | self.returns_alias(tg.func):
+                            a = am.get(pp)
+                            for r in (self._roots_of(fi, a) if a is not None else ()):
+                                if r in fi.params:
+                                    out.add((r, fld))
+                for a in list(e.args) + [k.value for k in e.keywords]:
+                    scan(a)
+                return
+            c = self._container_of(fi, ft, e, {}) if isinstance(e, ast.Attribute) else None
+            if c is not None and c[0] not in ("$store", "$param"):
+                for r in self._roots_of(fi, c[0]):
+                    if r in fi.params:
+                        out.add((r, c[1]))
+                return
+            for ch in ast.iter_child_nodes(e):
+                if isinstance(ch, ast.expr) or isinstance(ch, (ast.comprehension, ast.keyword)):
+                    scan(ch) if isinstance(ch, ast.expr) else [scan(x) for x in ast.iter_child_nodes(ch) if isinstance(x, ast.expr)]
+        for e in exprs:
+            scan(e)
+        # values bound to struct locals by plain assignment
+        for n in ast.walk(fi.node):
+            if isinstance(n, ast.Assign) and any(isinstance(t, ast.Name) and t.id in structs for t in n.targets):
+                scan(n.value)
+        self._emb[fi.qname] = out
+        return out
+
     def _known_other(self, ft, e) -> bool:
         t = ft.type_of(e)
         return t is not None and t not in (T_NODE, T_OPT)
@@ -155,6 +229,7 @@ class Effects:
         out: Set[Effect] = set()
         # local aliases of Node containers: v = X.attributes
         aliases: Dict[str, tuple] = {}
+        embedded: Dict[str, list] = {}
         for n in ast.walk(fi.node):
             if isinstance(n, ast.Assign) and len(n.targets) == 1 and isinstance(n.targets[0], ast.Name):
                 c = self._container_of(fi, ft, n.value, {})
@@ -169,6 +244,50 @@ class Effects:
                                 a = am.get(pp)
                                 if a is not None:
                                     aliases[n.targets[0].id] = (a, fld)
+                            # ... or a structure that contains such containers somewhere inside
+                            for (pp, fld) in self.embeds(tg.func):
+                                a = am.get(pp)
+                                if a is not None:
+                                    embedded.setdefault(n.targets[0].id, []).append((a, fld))
+
+        # locals that are parts of a raw parameter structure: x = p[...] / p.get(..) / for x in p / p.values() / tuples of such
+        parts: Dict[str, str] = {}
+
+        def part_root(e):
+            while True:
+                if isinstance(e, ast.Subscript):
+                    e = e.value
+                elif isinstance(e, ast.Call) and isinstance(e.func, ast.Attribute) and e.func.attr in ("values", "items", "get", "keys") :
+                    e = e.func.value
+                elif isinstance(e, ast.Call) and isinstance(e.func, ast.Name) and e.func.id in ("iter", "reversed", "enumerate") and e.args:
+                    e = e.args[0]
+                else:
+                    break
+            if isinstance(e, ast.Name):
+                if e.id in parts:
+                    return parts[e.id]
+                if e.id in fi.params and ft.env.get(e.id) not in (T_NODE, T_OPT, T_RULE):
+                    return e.id
+                if e.id in embedded:
+                    return "@" + e.id   # a local structure that embeds node containers
+            if isinstance(e, (ast.Tuple, ast.List)) and e.elts:
+                rs = {part_root(x) for x in e.elts}
+                if len(rs) == 1 and None not in rs:
+                    return rs.pop()
+            return None
+        for _ in range(4):
+            for n in ast.walk(fi.node):
+                if isinstance(n, ast.Assign) and len(n.targets) == 1 and isinstance(n.targets[0], ast.Name) and n.targets[0].id not in fi.params \
+                        and isinstance(n.value, (ast.Subscript, ast.Call)):
+                    r_ = part_root(n.value)
+                    if r_ is not None and ft.env.get(n.targets[0].id) not in (T_NODE, T_OPT, T_RULE):
+                        parts.setdefault(n.targets[0].id, r_)
+                elif isinstance(n, ast.For):
+                    r_ = part_root(n.iter)
+                    if r_ is not None:
+                        for x in ast.walk(n.target):
+                            if isinstance(x, ast.Name) and ft.env.get(x.id) not in (T_NODE, T_OPT, T_RULE) and x.id not in fi.params:
+                                parts.setdefault(x.id, r_)
 
         def emit(kind, field, recv_expr, node):
             roots = self._roots_of(fi, recv_expr) if recv_expr is not None else {"G"}
@@ -200,6 +319,20 @@ class Effects:
             if isinstance(t, ast.Subscript):
                 c = self._container_of(fi, ft, t.value, aliases)
                 if c is None:
+                    # a store two or more levels inside a structure that embeds node containers may hit one of them
+                    base, depth = t, 0
+                    while isinstance(base, ast.Subscript):
+                        base, depth = base.value, depth + 1
+                    if isinstance(base, ast.Name) and base.id in embedded and depth >= 2:
+                        for (owner, fld) in embedded[base.id]:
+                            emit("M", fld, owner, node)
+                    elif isinstance(base, ast.Name) and base.id in parts and depth >= 1:
+                        if parts[base.id].startswith("@"):
+                            for (owner, fld) in embedded.get(parts[base.id][1:], []):
+                                emit("M", fld, owner, node)
+                        else:
+                            # a local that is a part of a parameter structure (obtained by subscripting / iterating it): an out-parameter write
+                            out.add(Effect("P", None, parts[base.id], fi.qname, norm(node), fi.loc(node)))
                     return
                 if c[0] == "$store":
                     emit("S", None, None, node)
@@ -262,6 +395,15 @@ class Effects:
                         if a is None:
                             continue
                         if e.kind == "P":
+                            if isinstance(a, ast.Name) and a.id in parts and parts[a.id].startswith("@"):
+                                a = ast.Name(id=parts[a.id][1:], ctx=ast.Load())
+                            if isinstance(a, ast.Name) and a.id in embedded:
+                                # the callee writes somewhere inside a structure that holds the nodes' own containers
+                                for (owner, fld) in embedded[a.id]:
+                                    for r in self._roots_of(fi, owner):
+                                        if r != "F":
+                                            out.add(Effect("M", fld, r, e.func, e.construct, e.loc, (fi.qname,) + e.via))
+                                continue
                             c = self._container_of(fi, ft, a, aliases)
                             if c is None:
                                 continue
